@@ -190,7 +190,7 @@ def spec(ctx):
                           clause="%d terminals: every reachable matching x every sequence of %d connect/disconnect operation(s)" % (n, k)))
     rust.append(READS)
     rust.append("}")
-    hs.append(Harness("c09_pair_reads", "e2", skeletons=list(itertools.product([0, 1], repeat=5)),
+    hs.append(Harness("c09_pair_reads", "e2", timeout=300, skeletons=list(itertools.product([0, 1], repeat=5)),
                       clause="state / command / combined reads for every presence pattern of own and partner data, linked or not"))
     return {
         "crates": [{"rust": "\n".join(rust), "harnesses": hs}],
